@@ -342,7 +342,7 @@ def run(ck):
         a = shift_block(t['PostSelect']['body'])
         for kind in ('Measure',):
             b = shift_block(t[kind]['body'])
-            ck.ob('R-SIB-measure', '%s/index-shift' % kind, a == b and len(a) >= 3 and any('> SLOT' in x for x in a), ck.site('gate::Gate::add_to_graph'),
+            ck.ob3('R-SIB-measure', '%s/index-shift' % kind, None if (len(a) < 3 and len(b) < 3) else (a == b and len(a) >= 3 and any('> SLOT' in x for x in a)), ck.site('gate::Gate::add_to_graph'),
                   'the %s arm must remove the output slot, forget the qubit and shift every map entry above the removed SLOT down by one, exactly as PostSelect does: %s vs %s' % (kind, b, a))
     # positive controls
     fx = fixture()
